@@ -727,6 +727,12 @@ func specCaptured(o Object, k int, slot Object) bool {
 	return ok && c != nil && 0 <= k && k < len(c.Free) && Object(c.Free[k]) == slot
 }
 
+// specIsBoolValue: o is the Bool b.
+func specIsBoolValue(o Object, b bool) bool {
+	v, ok := o.(Bool)
+	return ok && bool(v) == b
+}
+
 // specIsBoxed: the slot holds a captured (boxed) local.
 func specIsBoxed(o Object) bool {
 	_, ok := o.(*ObjectPtr)
